@@ -725,8 +725,10 @@ impl Wal {
         Ok(out)
     }
 
-    pub(crate) fn latest_checkpoint_info(&self) -> Result<Option<(u64, u64)>> {
-        let mut reader = WalReader::open(&self.path)?;
+    /// Reads the newest checkpoint record of the log at `path` without opening it for
+    /// writing: `Wal::open` cuts off a torn tail, which only the owner of a database may do.
+    pub(crate) fn latest_checkpoint_info_at(path: &Path) -> Result<Option<(u64, u64)>> {
+        let mut reader = WalReader::open(path)?;
         let mut last: Option<(u64, u64)> = None;
         while let Some((_offset, record)) = reader.next_record()? {
             if let WalRecord::Checkpoint {
